@@ -1227,7 +1227,14 @@ class ReferenceResolver:
                     and type(resolved) is not Postponed
                     and metamodel.textx_tools_support
                 ):
-                    self.pos_crossref_list.append(
+                    # Keep the list sorted also if some references are
+                    # resolved in a later round (postponed).
+                    idx = bisect.bisect_right(
+                        [r.ref_pos_start for r in self.pos_crossref_list],
+                        crossref.position,
+                    )
+                    self.pos_crossref_list.insert(
+                        idx,
                         RefRulePosition(
                             name=crossref.obj_name,
                             ref_pos_start=crossref.position,
@@ -1235,7 +1242,7 @@ class ReferenceResolver:
                             def_file_name=get_model(resolved)._tx_filename,
                             def_pos_start=resolved._tx_position,
                             def_pos_end=resolved._tx_position_end,
-                        )
+                        ),
                     )
 
                 # As a fall-back search builtins if given
